@@ -121,7 +121,7 @@ pub fn run(ctx: &Ctx) -> i32 {
         ctx,
         "requests weighted towards 2..6 Into targets and invalid requests with two independent faults; each is expanded 8 times \
          in one process (every HashMap gets a fresh RandomState) and once in each of several freshly spawned processes; all outcomes \
-         (token text or diagnostic text) must be identical, also between the dev-profile and a release-profile build of the macro and between processes with different environments (emptied, other working directory, every variable the sources mention set to a panel of values); non-trivial = at least 2 Into targets or 2 faults; distinct by request hash",
+         (token text or diagnostic text) must be identical, also between the dev-profile and a release-profile build of the macro (a panic in one build only counts as a difference; the lane adds ordered enums with C04's boundary discriminants) and between processes with different environments (emptied, other working directory, every variable the sources mention set to a panel of values); non-trivial = at least 2 Into targets or 2 faults; distinct by request hash",
     );
     rep.assumptions.push("detection is probabilistic: k order-sensitive items survive 8 repetitions with probability (1/k!)^7".into());
     let known = check::load_known();
@@ -342,7 +342,12 @@ pub fn run(ctx: &Ctx) -> i32 {
         for t in check::draw(ctx.seed, 0xC16B, ctx.scale(2000, 10000), 420) {
             let dna = t.current();
             let mut d = Dna::new(&dna);
-            srcs.push(gen::build(&mut d, &c2).spec.render_def_with("", true));
+            let mut spec = gen::build(&mut d, &c2).spec;
+            // C04's discriminant stress (every repr, values at the edges of its range, 2^127-shifted u128 prefixes)
+            if spec.kind == Kind::Enum {
+                crate::props::c04::adjust(&mut spec, &mut d);
+            }
+            srcs.push(spec.render_def_with("", true));
         }
         match release_driver() {
             Err(e) => rep.inconclusive.push(e),
@@ -356,10 +361,11 @@ pub fn run(ctx: &Ctx) -> i32 {
                         let same = match m {
                             Expansion::Ok(t) => *l == format!("ok {:016x}", fnv64(t)),
                             Expansion::Err(msg) => l.strip_prefix("err ").map(|x| msg.replace('\n', "\\n").starts_with(x)).unwrap_or(false),
-                            // a panic in either build is C17's subject, not a difference between builds
-                            Expansion::Panic(_) => true,
+                            // a panic in both builds is C17's subject; a panic in one of them only (an overflow check, a debug
+                            // assertion) is a difference between builds
+                            Expansion::Panic(_) => l == "panic",
                             Expansion::Unparsable(_) => l.starts_with("unparsable") || l.starts_with("err "),
-                        } || l == "panic";
+                        };
                         if !same && reported < 5 {
                             reported += 1;
                             rep.violations.push(Failure {
